@@ -145,6 +145,16 @@ def run(ctx):
         ctx.leanchecker()
     if ctx.replay:
         scripts = [json.load(open(ctx.replay))["case"]]
+        # [replay of the other stage families] a Throttling / Emit / Unfold case goes to its own model and direct oracle
+        fam = ls.parse_cfg(scripts[0]).get("stage")
+        if fam == "Throttling":
+            from checks import C06_throttle
+            ls.judge(ctx, scripts, C06_throttle.evaluate, sub="throttle")
+            return
+        if fam in ("Emit", "Unfold"):
+            from checks import C11
+            ls.judge(ctx, scripts, C11.evaluate, sub="timed")
+            return
     else:
         n = 5000 if ctx.thorough() else 600
         scripts = [gen_script(ctx.rng) for _ in range(n)]
